@@ -884,7 +884,8 @@ def ep__write_post(kind):
             return
         cover(I, 'return')
         self, data, pre = ctx['args']['self'], ctx['args']['data'], ctx['pre']
-        before = z3.Concat(ep_acc(I, self, pre), data.t, ep_pending(I, self, pre))
+        wire = I.st.ghost.get('WIRE', data.t)
+        before = z3.Concat(ep_acc(I, self, pre), wire, ep_pending(I, self, pre))
         after = z3.Concat(ep_acc(I, self), ep_pending(I, self))
         errno = I.st.ghost.get('SEND_ERRNO')
         if errno is None:
@@ -900,10 +901,13 @@ def ep__write_post(kind):
     return post
 
 
-def ep__write_setup(kind):
+def ep__write_setup(kind, text=False):
     def setup(I):
         self = ep_objs(kind)(I)
-        data = sym(I, 'data', Bytes)
+        data = sym(I, 'data', Str if text else Bytes)
+        if text:
+            # a str payload written to a File opened in text mode; on the wire it is its encoding
+            I.st.ghost['WIRE'] = core.fn('py_encode', S(), S())(data.t)
         I.assume(z3.Not(I.fz(self, 'G_closed')), 'requires endpoint open (callers: __on_write with a non-empty buffer)')
         if kind == 'Client':
             I.assume(I.fz(self, '_connected'))
@@ -1060,6 +1064,45 @@ def ep__close_post(kind):
     return post
 
 
+def file_text_replay(model, ob):
+    return '''
+import sys
+from collections import deque
+from circuits.io import file as F
+class FakePoller:
+    def __init__(self): self._write=[]
+    def isWriting(self, fd): return fd in self._write
+    def addWriter(self, src, fd): self._write.append(fd)
+    def removeWriter(self, fd): self._write.remove(fd)
+    def discard(self, fd):
+        if fd in self._write: self._write.remove(fd)
+class FD:
+    closed = False
+    def fileno(self): return 7
+    def close(self): self.closed = True
+bad = []
+for text in ('h\\xe9llo w\\xf6rld', '\\u20ac\\u20ac\\u20ac\\u20ac', 'plain ascii'):
+    raw = text.encode('utf-8')
+    for k in range(0, len(raw) + 1):
+        got = []
+        script = [k]
+        def fd_write(fileno, d):
+            n = script.pop(0) if script else len(d)
+            n = min(n, len(d)); got.append(bytes(d[:n])); return n
+        F.fd_write = fd_write
+        f = F.File.__new__(F.File)
+        f._fd=FD(); f._poller=FakePoller(); f._buffer=deque(); f._closeflag=False; f._encoding='utf-8'; f._mode='w'
+        f.fire = lambda e,*ch: None
+        f.write(text)
+        for _ in range(len(raw) + 3):
+            f._File__on_write(f._fd)
+        if b''.join(got) != raw:
+            bad.append('text %r, first write accepts %d of %d bytes: descriptor received %r' % (text, k, len(raw), b''.join(got)))
+for b in bad[:4]: print(b)
+sys.exit(1 if bad else 0)
+'''
+
+
 for kind, file_, make in (('Client', 'circuits/net/sockets.py', CLIENT_MAKE), ('File', 'circuits/io/file.py', FILE_MAKE)):
     calls = ep_calls(kind)
     hooks = {'closed': ep_closed_hook} if kind == 'File' else {}
@@ -1068,6 +1111,12 @@ for kind, file_, make in (('Client', 'circuits/net/sockets.py', CLIENT_MAKE), ('
                          calls=dict(calls, **{'self._close': ep_close_summary}), cover=['sent', 'send_error'],
                          replay=_write_replay(make),
                          clause='%s._write: every outcome of send keeps accepted ++ queued intact; fatal errors are signalled' % kind, **mk))
+    if kind == 'File':
+        SPECS.append(FucSpec('C11', file_, 'File._write', ep__write_setup(kind, text=True), ep__write_post(kind), name='File._write[text payload]',
+                             calls=dict(calls, **{'self._close': ep_close_summary}), cover=['sent', 'send_error'],
+                             replay=file_text_replay,
+                             clause='File._write with a str payload (text mode): what reaches the descriptor plus what is re-queued is '
+                                    'exactly the ENCODED payload, for every partial write and every errno', **mk))
     SPECS.append(FucSpec('C11', file_, kind + '.write', ep_write_setup(kind), ep_write_post, calls=calls, cover=['return'],
                          clause='%s.write queues data behind what is queued, sends nothing, turns writer interest on' % kind, **mk))
     SPECS.append(FucSpec('C11', file_, kind + '.__on_write', ep_on_write_setup(kind), ep_on_write_post,
